@@ -272,9 +272,14 @@ func senderCommittee(pr *Protocol, content string) string {
 			if s.Ctor == nil || s.Ctor.Content != content {
 				continue
 			}
-			fn := s.Send.Parent()
+			// where the send happens in the round step (the send, or the call of the helper that holds it)
+			var at ssa.Instruction = s.Send
+			if s.At != nil {
+				at = s.At
+			}
+			fn := at.Parent()
 			for _, role := range []string{"oldOnly", "newOnly"} {
-				if _, ok := core.FactsAtPruned(s.Send.Block(), roleEdges(fn, role)); !ok {
+				if _, ok := core.FactsAtPruned(at.Block(), roleEdges(fn, role)); !ok {
 					// unreachable for this role → sent by the other committee
 					if role == "oldOnly" {
 						return "new"
